@@ -310,7 +310,7 @@ func compareCBEDecode(c *Check, label string, lf decLeaf, doc []byte, cfg *confi
 	}
 	nontrivial := len(doc) > 3
 	c.Count(label+hex.EncodeToString(doc)+lf.Mode, nontrivial)
-	if len(doc) >= 6 {
+	if len(doc) >= 4 {
 		c.Sample(map[string]interface{}{"doc": hex.EncodeToString(doc), "machine": lf.Mode, "events": evsString(exp)})
 	}
 	out := realCBEDecode(doc, cfg)
